@@ -181,9 +181,11 @@ TTick ==
       \* "after 30 s without any frame the periodic tick ends the session, clears the charge counter and empties
       \* the session table" - whatever state the engine is in.  The timer a frame armed fires once: between 29 s
       \* and 30 s (sub-second rounding of the two clocks) the record's own timer field says whether it did.
-      mustEnd == had /\ ev.now - lastFrame[1] >= 30000
+      \* (the frame flow arms it at the second the frame ARRIVED - before parseFrame may let time pass - plus 30,
+      \* and the tick compares whole seconds: no grey zone)
+      mustEnd == had /\ nows - lastFrame[2] >= 30
       mustNot == had /\ nows - lastFrame[2] <= 29
-      fired == had /\ (mustEnd \/ (~mustNot /\ ev.inact = 0))
+      fired == mustEnd
       survivors == {e \in full.live : ~(nows > e.last + Expiry)}
       \* C13 at the level of the tick: when the block deadline has passed in Pausing the block ends, however
       \* late the tick is: the count follows the formula for the Hellos actually heard (a Hello sent in this
@@ -300,7 +302,7 @@ TGlue ==
   /\ (Primary = "C12" /\ Len(ev.hellos) > 0 => TLCSet(2, TLCGet(2) \cup {l}))
   /\ lastHello' = LastHelloAfter(ev.hellos, lastHello)
   /\ mdl' = MdlAfterGlue(ev)
-  /\ lastFrame' = << ev.now, ev.now \div 1000 >>
+  /\ lastFrame' = << ev.now0, ev.now0 \div 1000 >>      \* when the frame arrived (the reply pause of parseFrame comes later)
   /\ LET charged == [full EXCEPT !.ctc = IF ev.op = OpCharge THEN (full.ctc + 1) % 256 ELSE full.ctc,
                                   !.cdl = IF ev.op = OpCharge THEN ev.now0 \div 1000 + 1 ELSE full.cdl]
      IN /\ Chk("XGLUE") => ev.ctc = CtcAfterTick(charged.ctc, charged, ev.now \div 1000, FALSE)
